@@ -71,4 +71,67 @@ theorem shapeVerts_rect (base obj : Nat) (x0 y0 x1 y1 : Rat) :
         { idx := base + 3, obj := obj, vn := 3, conn := false, pt := ⟨x0, y0⟩, prev := some (base + 2, ⟨x0, y1⟩), next := some (base + 0, ⟨x1, y0⟩) } ] := by
   simp [shapeVerts, rectPoly, List.range, List.range.loop]
 
+
+/-! ### the model's status list is sorted when the rule is applied -/
+
+theorem mem_insertBy {α : Type} (lt : α → α → Bool) (x z : α) : ∀ (l : List α), z ∈ insertBy lt x l ↔ z = x ∨ z ∈ l
+  | [] => by simp [insertBy]
+  | y :: ys => by
+    unfold insertBy
+    by_cases h : lt y x = true
+    · rw [if_pos h, List.mem_cons, mem_insertBy lt x z ys, List.mem_cons]
+      constructor
+      · rintro (h1 | h1 | h1)
+        · exact Or.inr (Or.inl h1)
+        · exact Or.inl h1
+        · exact Or.inr (Or.inr h1)
+      · rintro (h1 | h1 | h1)
+        · exact Or.inr (Or.inl h1)
+        · exact Or.inl h1
+        · exact Or.inr (Or.inr h1)
+    · rw [if_neg h]; simp [List.mem_cons]
+
+theorem adist_le_of_not_epLt (x y : EP) (h : ¬ epLt y x = true) : x.adist ≤ y.adist := by
+  unfold epLt at h
+  by_cases he : y.adist = x.adist
+  · exact le_of_eq he.symm
+  · rw [if_neg he] at h
+    have : ¬ y.adist < x.adist := by simpa using h
+    exact not_lt.mp this
+
+theorem adist_le_of_epLt (x y : EP) (h : epLt y x = true) : y.adist ≤ x.adist := by
+  unfold epLt at h
+  by_cases he : y.adist = x.adist
+  · exact le_of_eq he
+  · rw [if_neg he] at h
+    exact le_of_lt (by simpa using h)
+
+theorem insertBy_sorted (x : EP) : ∀ (l : List EP), SortedStatus l → SortedStatus (insertBy epLt x l)
+  | [], _ => by simp [insertBy, SortedStatus]
+  | y :: ys, hs => by
+    unfold insertBy
+    have hy := List.pairwise_cons.mp hs
+    by_cases h : epLt y x = true
+    · rw [if_pos h]
+      refine List.pairwise_cons.mpr ⟨?_, insertBy_sorted x ys hy.2⟩
+      intro z hz
+      rcases (mem_insertBy epLt x z ys).mp hz with h1 | h1
+      · rw [h1]; exact adist_le_of_epLt x y h
+      · exact hy.1 z h1
+    · rw [if_neg h]
+      have hxy := adist_le_of_not_epLt x y h
+      refine List.pairwise_cons.mpr ⟨?_, hs⟩
+      intro z hz
+      rcases List.mem_cons.mp hz with h1 | h1
+      · rw [h1]; exact hxy
+      · exact le_trans hxy (hy.1 z h1)
+
+theorem sortBy_epLt_sorted : ∀ (l : List EP), SortedStatus (sortBy epLt l)
+  | [] => by simp [sortBy, SortedStatus]
+  | x :: xs => by
+    have := sortBy_epLt_sorted xs
+    unfold sortBy at this ⊢
+    rw [List.foldr_cons]
+    exact insertBy_sorted x _ this
+
 end AdaptaVerif.Lemmas.LeeSweep
